@@ -644,12 +644,19 @@ func init() {
 		}
 	}
 	drivers["sweeps16"] = func(s *exec.State, g *gen.G, n int) {
-		sweepSet([]string{"loss24", "header32", "nack32", "sli32"}, map[string]uint64{"loss24": 256})(s, g, n)
+		// the 2^24 domain is always swept completely; the 2^32 and 2^40 domains are strided in the quick tier, where
+		// every value of each of their fields (with the rest of the word at three presets) is swept in addition
+		sweepSet([]string{"loss24", "header32", "nack32", "sli32"}, map[string]uint64{"loss24": 1 << 20})(s, g, n)
 		s.Sweep("fir40", uint64(n)*251*257+1)
+		if n > 1 {
+			for _, name := range []string{"header32-fields", "nack32-fields", "sli32-fields", "fir40-fields"} {
+				s.Sweep(name, 1)
+			}
+		}
 	}
 	drivers["sweeps12"] = sweepSet([]string{"nackequiv32"}, nil)
 	drivers["sweeps14"] = sweepSet([]string{"rembscale24", "rembencint", "rembenctop18", "rembencscale", "rembencsat"},
-		map[string]uint64{"rembscale24": 256, "rembencint": 16, "rembenctop18": 16, "rembencscale": 16, "rembencsat": 16})
+		map[string]uint64{"rembscale24": 1 << 20, "rembencint": 16, "rembenctop18": 1 << 20, "rembencscale": 16, "rembencsat": 16})
 }
 
 func init() {
